@@ -42,17 +42,19 @@ type dblock struct {
 }
 
 type env struct {
-	w       *vk.World
-	dir     string
-	pub     *vk.Node
-	chain   []coin.SignedBlock        // chain[k] = publisher block k (0 = genesis)
-	alt     map[int]coin.Transactions // alt[k]: another transaction set valid at height k-1 (not the publisher's block k)
-	other   cipher.SecKey             // a key that is not the publisher's
-	f1      bool
-	folCfg  int                      // which block-creation policy the next follower is configured with
-	hashes  map[[2]cipher.SHA256]int // (header hash, body hash) of the publisher's blocks
-	nfollow int
-	rng     *Rng
+	w           *vk.World
+	dir         string
+	pub         *vk.Node
+	chain       []coin.SignedBlock        // chain[k] = publisher block k (0 = genesis)
+	alt         map[int]coin.Transactions // alt[k]: another transaction set valid at height k-1 (not the publisher's block k)
+	other       cipher.SecKey             // a key that is not the publisher's
+	f1          bool
+	folCfg      int  // which block-creation policy the next follower is configured with
+	asPublisher bool // the receiving node is configured as block publisher
+	arbitrating bool
+	hashes      map[[2]cipher.SHA256]int // (header hash, body hash) of the publisher's blocks
+	nfollow     int
+	rng         *Rng
 }
 
 func (e *env) material(b dblock) coin.SignedBlock {
@@ -126,7 +128,12 @@ func (e *env) follower(reqn uint64) (*vk.Node, *daemon.VerifC33Node, error) {
 	if err := vk.CopyFile(tmpl, p); err != nil {
 		return nil, nil, err
 	}
-	n, err := e.w.Open(p, false)
+	// node kind: a plain follower, or a node CONFIGURED AS BLOCK PUBLISHER (real secret key,
+	// every third of those also arbitrating) that is behind the chain, e.g. restarted from an
+	// older database: what it accepts from peers must be the same
+	e.asPublisher = e.nfollow%3 == 0
+	e.arbitrating = e.nfollow%9 == 0
+	n, err := e.w.Open(p, e.asPublisher)
 	if err != nil {
 		return nil, nil, err
 	}
@@ -295,7 +302,7 @@ func (e *env) oneCase(sched [][]dblock, each bool, reqn uint64) (string, map[str
 		coqSched(re), coqTrace(tr2), List(ids2))
 	js := map[string]interface{}{"schedule": schedString(sched), "redelivery": schedString(re), "f1": e.f1,
 		"heads": fmt.Sprint(headsOf(tr)), "final_after_redelivery": len(ids2), "chain_len": len(e.chain) - 1,
-		"request_count": dn.Cfg.GetBlocksRequestCount, "response_cap": dn.Cfg.MaxGetBlocksResponseCount}
+		"node_kind": map[bool]string{false: "follower", true: "configured as block publisher"}[e.asPublisher], "request_count": dn.Cfg.GetBlocksRequestCount, "response_cap": dn.Cfg.MaxGetBlocksResponseCount}
 	return term, js, nil
 }
 
@@ -396,6 +403,10 @@ func run(args []string) error {
 	// Publisher and followers run with DIFFERENT block-creation / unconfirmed policy
 	// parameters; none of them is a consensus rule, acceptance must not depend on them.
 	w.Tweak = func(c *visor.Config, publisher bool) {
+		if publisher && e.pub != nil { // a receiving node configured as block publisher
+			c.Arbitrating = e.arbitrating
+			return
+		}
 		if publisher { // generous publisher: blocks and transactions far above the defaults
 			c.MaxBlockTransactionsSize = 1 << 20
 			c.CreateBlockVerifyTxn.MaxTransactionSize = 1 << 20
